@@ -213,7 +213,7 @@ pub fn run(eng: &mut Engine) {
         )
         .limit_s(300),
         nsess,
-        true,
+        false, // exhaustive per session (every join offset), the sessions themselves are sampled
         move |c, st| {
             let strat = session_strategy();
             let sess = sample(&strat, mix(seed ^ 0xC16, c));
